@@ -100,3 +100,15 @@ def fill(C, PENDING):
       "unique decodable values (auto-advance 1 ns, distinct power-of-two advances) and checked offline for duplicate reads, chain consistency with "
       "real-time order and conservation, with sys.monitoring yield injection inside FakeClock; ZonedClock views and SystemClock bracketing.",
       "Sampled schedules only (evidence reports histories, injections and distinct interleaving signatures); CPython GIL semantics define what an interleaving is.", "§3 C19")
+
+    C("C07", "exploration", "runtime monitoring: generated pattern grammar x cultures x calendars with round-trip, idempotence and determinism monitors",
+      "Patterns of all seven types are built from field lists (so the harness knows what each can represent), created in the invariant and seeded ICU "
+      "cultures and every calendar, and driven with representable boundary-biased values: parse(format(v)) must equal v; every text a pattern produces, "
+      "if it parses, must re-format to itself; all standard single-letter patterns and the built-in round-trip/ISO patterns are included; for fixed-width "
+      "numeric patterns every successfully parsed mutant text must re-format to itself; formatting must be deterministic across fresh pattern objects.",
+      "A construct the generator never emits is never judged; generator rules (DESIGN §3 C07) decide representability; documented leniencies (case, sign of zero) are normalised.", "§3 C07")
+    C("C08", "exploration", "runtime monitoring: exception-escape monitor at the client boundary over mutation corpora of texts and pattern strings",
+      "Every create/parse/ParseResult accessor call is wrapped; allowed outcomes are pattern | InvalidPatternError and ParseResult (success with a value that "
+      "passes a validity oracle, or failure carrying UnparsableValueError); inputs are valid texts, single-edit mutants with hostile characters, "
+      "out-of-range fields written directly, overlong digit runs, 100k-char strings, and malformed pattern strings.",
+      "Mutation corpus and grammar only; violations are keyed by exception type and innermost raising function.", "§3 C08")
